@@ -276,7 +276,7 @@ class CmdMixin(object):
         # tracker view (C07 ii/iii): held nameplates listed, fully released ones not
         if self.cfg.allow_list:
             for (app, name), n in self.np.items():
-                if app != cm.app or n.taint:
+                if app != cm.app or (n.taint - SOFT):
                     continue
                 self.ev["c07_listed_while_held"] += 1
                 if n.holders() and name not in ids:
@@ -584,7 +584,7 @@ class CmdMixin(object):
         if n.holders():
             # C07 (ii): others still hold it
             self.ev["c07_survives_others_hold"] += 1
-            if not n.taint - {"crowd"}:
+            if not n.taint - {"crowd"} - SOFT:
                 if gone or rows_after[0][1]["mailbox_id"] != n.mid:
                     self.flag({"C07"}, "nameplate removed/re-bound while another side still holds it", st,
                               {"name": name, "holders": n.holders(), "released_by": cm.side})
@@ -594,7 +594,7 @@ class CmdMixin(object):
                             self.flag({"C07"}, "another side's claim ended by this release", st,
                                       {"name": name, "holder": h, "released_by": cm.side})
         else:
-            if n.taint:
+            if n.taint - SOFT:
                 self.dontcare["c07_last_release_tainted"] += 1
             else:
                 self.ev["c07_gone_after_last_release"] += 1
